@@ -510,6 +510,146 @@ fn derivation_checks(rep: &Report, cen: &mut Census) {
     }
 }
 
+/// Secret key expressions: `to_public` must commute with derivation. For every xprv expression
+/// (origin x shared steps mixing normal and hardened steps in every order x optional multipath x
+/// trailing step x wildcard) the public keys finally derived from `to_public()` equal the public
+/// keys of independent BIP32 *private* derivation along the written path, the recorded origin
+/// is the written path, and hardened steps that are not shared by all alternatives are refused.
+fn secret_to_public_checks(rep: &Report, cen: &mut Census) {
+    use bitcoin::bip32::{ChildNumber, Xpriv};
+    use miniscript::descriptor::DescriptorSecretKey;
+    let secp = secp256k1::Secp256k1::new();
+    let master = Xpriv::new_master(bitcoin::Network::Bitcoin, &[0x42; 32]).unwrap();
+    let n = |i: u32| ChildNumber::from_normal_idx(i).unwrap();
+    let h = |i: u32| ChildNumber::from_hardened_idx(i).unwrap();
+    let shared_sets: Vec<Vec<ChildNumber>> = vec![vec![], vec![n(7)], vec![h(8)], vec![n(7), h(8)], vec![h(8), n(7)], vec![n(7), h(8), n(9)], vec![h(7), n(8), h(9)], vec![n(1), n(2), h(3), n(4)]];
+    let multis: Vec<Option<Vec<ChildNumber>>> = vec![None, Some(vec![n(0), n(1)]), Some(vec![n(0), n(1), n(2)]), Some(vec![h(0), n(1)])];
+    let trailing: Vec<Vec<ChildNumber>> = vec![vec![], vec![n(3)], vec![h(5)]];
+    let origins = ["", "[aabbccdd/44'/1]"];
+    let show = |c: &ChildNumber| match c {
+        ChildNumber::Normal { index } => format!("{}", index),
+        ChildNumber::Hardened { index } => format!("{}'", index),
+    };
+    for o in origins {
+        for sh in &shared_sets {
+            for mp in &multis {
+                for tr in &trailing {
+                    for wild in ["", "/*"] {
+                        let mut s = format!("{}{}", o, master);
+                        for c in sh {
+                            s.push_str(&format!("/{}", show(c)));
+                        }
+                        if let Some(alts) = mp {
+                            s.push_str(&format!("/<{}>", alts.iter().map(show).collect::<Vec<_>>().join(";")));
+                        }
+                        for c in tr {
+                            s.push_str(&format!("/{}", show(c)));
+                        }
+                        s.push_str(wild);
+                        bump(cen, "secret_key_expressions");
+                        let mut viol = |class: &str, what: String| {
+                            rep.violation(Violation {
+                                key: format!("C16|secret-{}|{}", class, s),
+                                class: format!("secret-key-{}", class),
+                                what,
+                                case: json!({"key": s}),
+                            });
+                        };
+                        let sk = match guard(|| DescriptorSecretKey::from_str(&s)) {
+                            Ok(Ok(k)) => k,
+                            Ok(Err(_)) => {
+                                bump(cen, "secret_key_expressions_refused_by_parser");
+                                continue;
+                            }
+                            Err(p) => {
+                                viol("parse-panic", p);
+                                continue;
+                            }
+                        };
+                        // hardened steps that are not shared by all alternatives cannot be applied to a public key
+                        let unshared_hardened = mp.as_ref().map(|a| a.iter().any(|c| c.is_hardened())).unwrap_or(false) || (mp.is_some() && tr.iter().any(|c| c.is_hardened()));
+                        let pk = match guard(|| sk.to_public(&secp)) {
+                            Ok(Ok(p)) => p,
+                            Ok(Err(_)) => {
+                                if !unshared_hardened {
+                                    viol("to_public-refuses", "to_public fails although every hardened step is shared".into());
+                                } else {
+                                    bump(cen, "secret_unshared_hardened_refused");
+                                }
+                                continue;
+                            }
+                            Err(p) => {
+                                viol("to_public-panic", p);
+                                continue;
+                            }
+                        };
+                        if unshared_hardened {
+                            viol("to_public-accepts-unshared-hardened", format!("to_public gives {}", pk));
+                            continue;
+                        }
+                        // every alternative x index: final public key vs private derivation along the written path
+                        let alts: Vec<Option<ChildNumber>> = match mp {
+                            Some(a) => a.iter().map(|c| Some(*c)).collect(),
+                            None => vec![None],
+                        };
+                        let singles = pk.clone().into_single_keys();
+                        if singles.len() != alts.len() {
+                            viol("alternatives", format!("{} single keys for {} alternatives", singles.len(), alts.len()));
+                            continue;
+                        }
+                        for (j, alt) in alts.iter().enumerate() {
+                            for idx in [0u32, 5] {
+                                if wild.is_empty() && idx != 0 {
+                                    continue;
+                                }
+                                let mut path: Vec<ChildNumber> = sh.clone();
+                                if let Some(a) = alt {
+                                    path.push(*a);
+                                }
+                                path.extend(tr.iter().cloned());
+                                if !wild.is_empty() {
+                                    path.push(n(idx));
+                                }
+                                let want = master.derive_priv(&secp, &path).unwrap().private_key.public_key(&secp);
+                                let got = guard(|| singles[j].clone().at_derivation_index(idx).map(|d| d.derive_public_key(&secp)));
+                                match got {
+                                    Ok(Ok(g)) => {
+                                        if g.inner != want {
+                                            viol("derived-key", format!("alternative {} index {}: derived {} but private derivation along the written path gives {}", j, idx, g, want));
+                                        } else {
+                                            bump(cen, "secret_derivations_ok");
+                                        }
+                                    }
+                                    Ok(Err(e)) => viol("derive-fails", e.to_string()),
+                                    Err(p) => viol("derive-panic", p),
+                                }
+                            }
+                            // recorded origin + remaining path = written path (under the written / implied fingerprint)
+                            let mut written: Vec<String> = if o.is_empty() { vec![] } else { vec!["44'".into(), "1".into()] };
+                            written.extend(sh.iter().map(|c| c.to_string()));
+                            if let Some(a) = alt {
+                                written.push(a.to_string());
+                            }
+                            written.extend(tr.iter().map(|c| c.to_string()));
+                            let has_hard = sh.iter().any(|c| c.is_hardened()) || tr.iter().any(|c| c.is_hardened());
+                            if !o.is_empty() || has_hard {
+                                let got: Option<Vec<String>> = singles[j].full_derivation_path().map(|p| p.into_iter().map(|c| c.to_string()).collect());
+                                if got.as_ref() != Some(&written) {
+                                    viol("origin-path", format!("alternative {}: full derivation path {:?}, written {:?}", j, got, written));
+                                }
+                                let exp_fp = if o.is_empty() { master.fingerprint(&secp).to_string() } else { "aabbccdd".to_string() };
+                                if singles[j].master_fingerprint().to_string() != exp_fp {
+                                    viol("origin-fingerprint", format!("{} expected {}", singles[j].master_fingerprint(), exp_fp));
+                                }
+                            }
+                        }
+                    }
+                }
+            }
+        }
+    }
+}
+
 fn permutations(n: usize) -> Vec<Vec<usize>> {
     if n == 0 {
         return vec![vec![]];
@@ -630,6 +770,7 @@ pub fn run(tier: Tier) -> i32 {
     let mut cen = Census::new();
     derivation_checks(&rep, &mut cen);
     sortedmulti_checks(&rep, &mut cen);
+    secret_to_public_checks(&rep, &mut cen);
     rep.merge_counts(&cen);
     let _ = (walk::<String, miniscript::Segwitv0>, DefiniteDescriptorKey::from_str);
     rep.extra("bounds", json!({"script_nodes": n, "networks": 4, "derivation_indices": [0, 1, 2147483647u32, 2147483648u32], "sortedmulti_n": 4}));
